@@ -396,7 +396,15 @@ impl Tlc {
         jo.generated += out.generated;
         jo.distinct += out.distinct;
         jo.wall_s = jo.wall_s.max(out.wall_s);
-        jo.lines.extend(out.lines.into_iter().filter(|l| l.starts_with("<<\"")));
+        // record numbers in the tagged lines of a shard are made global (first number after the tag)
+        jo.lines.extend(out.lines.into_iter().filter(|l| l.starts_with("<<\"")).map(|l| {
+          if let Some(rest) = l.strip_prefix("<<\"UNSPEC\", ") {
+            if let Some(n) = rest.trim_end_matches(">>").trim().parse::<usize>().ok() {
+              return format!("<<\"UNSPEC\", {}>>", lo + n);
+            }
+          }
+          l
+        }));
       }
       jo.rejects.sort();
       jo
